@@ -25,6 +25,16 @@ class SelfSlice:
         return list(range(*slice(self.lo, self.hi, self.step).indices(n)))
 
 
+class Stub:
+    """A structural stand-in for a library object: plain Python attributes / methods supplied by the rule."""
+    pass
+
+
+class Buf(list):
+    """A byte buffer (pa.Buffer / memoryview stand-in): truthy when present, unlike a numpy vector."""
+    pass
+
+
 class Gather:
     """self.take(v) / self.data.take(v): the positions v."""
 
@@ -48,7 +58,7 @@ def _ew(op, a, b):
 _CMP = {ast.Lt: lambda a, b: a < b, ast.LtE: lambda a, b: a <= b, ast.Gt: lambda a, b: a > b, ast.GtE: lambda a, b: a >= b,
         ast.Eq: lambda a, b: a == b, ast.NotEq: lambda a, b: a != b}
 _BIN = {ast.Add: lambda a, b: a + b, ast.Sub: lambda a, b: a - b, ast.Mult: lambda a, b: a * b, ast.FloorDiv: lambda a, b: a // b, ast.Mod: lambda a, b: a % b,
-        ast.BitAnd: lambda a, b: a & b, ast.BitOr: lambda a, b: a | b}
+        ast.BitAnd: lambda a, b: a & b, ast.BitOr: lambda a, b: a | b, ast.LShift: lambda a, b: a << b, ast.RShift: lambda a, b: a >> b, ast.BitXor: lambda a, b: a ^ b}
 
 
 class VecEval:
@@ -67,6 +77,8 @@ class VecEval:
                 self.assign(t, v)
         elif isinstance(s, ast.If):
             c = self.expr(s.test)
+            if isinstance(c, Buf):
+                c = True
             if isinstance(c, list):
                 raise Unsupported('truth value of a vector')
             self.block(s.body if c else s.orelse)
@@ -74,6 +86,20 @@ class VecEval:
             raise Returned(s, self.expr(s.value) if s.value is not None else None)
         elif isinstance(s, ast.Expr) and isinstance(s.value, ast.Constant):
             pass
+        elif isinstance(s, ast.Expr):
+            self.expr(s.value)
+        elif isinstance(s, ast.For):
+            it = self.expr(s.iter)
+            if not isinstance(it, (list, range, tuple)):
+                raise Unsupported('loop over a non-sequence')
+            for v in it:
+                self.assign(s.target, v)
+                self.block(s.body)
+        elif isinstance(s, ast.AugAssign) and type(s.op) in _BIN:
+            cur = self.expr(ast.Name(id=s.target.id, ctx=ast.Load())) if isinstance(s.target, ast.Name) else None
+            if cur is None:
+                raise Unsupported('augmented assignment target')
+            self.assign(s.target, _ew(_BIN[type(s.op)], cur, self.expr(s.value)))
         elif isinstance(s, ast.Pass):
             pass
         elif isinstance(s, ast.Raise):
@@ -88,7 +114,7 @@ class VecEval:
             for e, x in zip(t.elts, v):
                 self.assign(e, x)
         elif isinstance(t, ast.Subscript) and isinstance(t.value, ast.Name) and isinstance(self.env.get(t.value.id), list):
-            base = list(self.env[t.value.id])
+            base = self.env[t.value.id]          # numpy semantics: stores go into the same buffer (out-parameters)
             i = self.expr(t.slice)
             if isinstance(i, list) and len(i) == len(base) and all(isinstance(x, bool) for x in i):
                 pos = [k for k, m in enumerate(i) if m]
@@ -118,6 +144,8 @@ class VecEval:
         if isinstance(e, ast.UnaryOp):
             v = self.expr(e.operand)
             if isinstance(e.op, ast.Not):
+                if isinstance(v, Buf):
+                    return False
                 if isinstance(v, list):
                     raise Unsupported('not vector')
                 return not v
@@ -131,6 +159,8 @@ class VecEval:
                 r = True
                 for x in e.values:
                     r = self.expr(x)
+                    if isinstance(r, Buf):
+                        r = True
                     if isinstance(r, list):
                         raise Unsupported('and on vector')
                     if not r:
@@ -139,6 +169,8 @@ class VecEval:
             r = False
             for x in e.values:
                 r = self.expr(x)
+                if isinstance(r, Buf):
+                    r = True
                 if isinstance(r, list):
                     raise Unsupported('or on vector')
                 if r:
@@ -196,6 +228,8 @@ class VecEval:
             base = self.expr(e.value) if not (isinstance(e.value, ast.Name) and e.value.id in ('np', 'numpy', 'self', 'pa', 'pd')) else None
             if isinstance(base, list) and e.attr == 'size':
                 return len(base)
+            if isinstance(base, Stub) and hasattr(base, e.attr):
+                return getattr(base, e.attr)
             raise Unsupported(f'attribute {ast.unparse(e)}')
         if isinstance(e, ast.Call):
             return self.call(e)
@@ -219,7 +253,46 @@ class VecEval:
                 return {'all': all, 'any': any, 'min': min, 'max': max, 'sum': sum}[short](v)
         if fn == 'len' and len(e.args) == 1 and ast.unparse(e.args[0]) in ('self', 'self.data'):
             return self.n
+        if isinstance(e.func, ast.Attribute) and not fn.startswith(('np.', 'numpy.')):
+            try:
+                recv = self.expr(e.func.value)
+            except Unsupported:
+                recv = None
+            if isinstance(recv, Stub) and callable(getattr(recv, e.func.attr, None)):
+                return getattr(recv, e.func.attr)(*[self.expr(a) for a in e.args])
+        if fn in ('np.unpackbits', 'numpy.unpackbits') and e.args:
+            by = self.expr(e.args[0])
+            kw = {k.arg: self.expr(k.value) for k in e.keywords}
+            if not isinstance(by, list):
+                raise Unsupported('unpackbits of a non-vector')
+            order = kw.get('bitorder', 'big')
+            bits = []
+            for b in by:
+                ks = range(8) if order == 'little' else range(7, -1, -1)
+                bits.extend((b >> k) & 1 for k in ks)
+            cnt = kw.get('count')
+            if cnt is not None:
+                bits = (bits + [0] * max(0, cnt - len(bits)))[:cnt] if cnt >= 0 else bits[:cnt]
+            return bits
+        if fn in ('np.frombuffer', 'numpy.frombuffer', 'memoryview', 'bytes', 'bytearray') and e.args:
+            v = self.expr(e.args[0])
+            if isinstance(v, list):
+                return Buf(v) if fn == 'memoryview' else list(v)
+            raise Unsupported('buffer')
+        if fn in ('np.full', 'numpy.full') and len(e.args) >= 2:
+            n_, v_ = self.expr(e.args[0]), self.expr(e.args[1])
+            if isinstance(n_, int):
+                return [v_] * n_
+        if fn in ('np.zeros', 'numpy.zeros', 'np.ones', 'numpy.ones') and e.args:
+            n_ = self.expr(e.args[0])
+            if isinstance(n_, int):
+                return [('ones' in fn)] * n_ if any(k.arg == 'dtype' and 'bool' in ast.unparse(k.value) for k in e.keywords) else [1 if 'ones' in fn else 0] * n_
+        if fn == 'divmod' and len(e.args) == 2:
+            a_, b_ = self.expr(e.args[0]), self.expr(e.args[1])
+            return divmod(a_, b_)
         args = [self.expr(a) for a in e.args]
+        if fn == 'len' and len(args) == 1 and isinstance(args[0], Stub):
+            return getattr(self, 'stub_len', {}).get(id(args[0]), self.n)
         if fn in ('len',) and isinstance(args[0], (list, tuple)):
             return len(args[0])
         if fn in ('int', 'np.intp', 'np.int64', 'bool', 'abs') and len(args) == 1 and not isinstance(args[0], list):
